@@ -40,4 +40,5 @@ def main(tier):
     chk.run("R-PATHEND", RR.pathend, r, floor=2, modules=("compiler/front_end/expression_bounds.py",))
     chk.run("R-CONSTAGREE", R.constagree, cx.repo, floor=3)
     chk.run("R-MODCOMBINE", R.modcombine, cx.repo, floor=4)
+    chk.run("R-CHOICECONST", R.choiceconst, cx.repo, floor=2)
     return chk.finish()
